@@ -62,6 +62,7 @@ def generate(job):
         spec["max_N"] = rs.choice([3, 5, 8, 20, 50])
         spec["force"] = rs.chance(0.85)
         spec["preset"] = rs.weighted([("none", 5), ("small", 2), ("large", 2)])
+        spec["preset_type"] = rs.choice(["tensor", "float", "numpy"])  # what a user assigns to max_amplitude / max_weight
         spec["importance"] = rs.chance(0.2)
         # weight script: base weights in (0, wscale]; planted maxima at late serial numbers
         spec["wseed"] = rs.randrange(1 << 30)
@@ -227,6 +228,8 @@ def run_ms(spec, log):
         preset = tf.constant(float(np.min(first)) * 0.5, dtype=tf.float64)
     elif spec["preset"] == "large":
         preset = tf.constant(spec["wscale"] * 40.0, dtype=tf.float64)
+    if preset is not None and spec.get("preset_type", "tensor") != "tensor":
+        preset = float(preset.numpy()) if spec["preset_type"] == "float" else np.float64(preset.numpy())
     with rng_seam(spec["rng_seed"], script=script):
         ret, status = multi_sampling(phsp, amp, N, max_N=max_N, force=spec["force"], max_weight=preset, importance_f=imp_f, display=False)
     out_ser = np.array(ret["serial"])
@@ -449,6 +452,46 @@ def run_inv(spec, log):
             if not (np.all(pts[:, j] >= xs[j][0] - 1e-12) and np.all(pts[:, j] <= xs[j][-1] + 1e-12)):
                 log.fail("in-range", "InterpND|in-range", "dimension %d left the grid range" % j)
                 return
+        # the measure behind generate(): scripted draws - the cell-selection uniform sweeps an equidistant grid,
+        # every position uniform is 0.04 (sqrt = 0.2), so each returned point names its cell AND the corner whose
+        # triangular shape was used (offset 0.2 from the upper / 0.8 = lower node).  The swept fraction per
+        # (cell, corner) must be the mass of that corner's term of the multilinear interpolation:
+        # z_corner * cell volume / 2^n / integral.
+        import itertools
+
+        M = 4000 * 2**nd
+
+        def script(role, shape, idx, u):
+            if len(shape) == 2:
+                return np.full(shape, 0.04)
+            return (np.arange(shape[0]) + 0.5) / shape[0]
+
+        with rng_seam(spec["rng_seed"], script=script):
+            pts = f.generate(M)
+        mass = {}
+        for pt in pts:
+            b, p = [], []
+            for j in range(nd):
+                k = int(np.digitize(pt[j], xs[j][1:-1]))
+                t = (pt[j] - xs[j][k]) / (xs[j][k + 1] - xs[j][k])
+                b.append(k)
+                p.append(1 if abs(t - 0.2) < 1e-6 else (0 if abs(t - 0.8) < 1e-6 else -1))
+            mass[(tuple(b), tuple(p))] = mass.get((tuple(b), tuple(p)), 0) + 1.0 / M
+        exp, tot = {}, 0.0
+        for b in itertools.product(*[range(len(x) - 1) for x in xs]):
+            vol = float(np.prod([xs[j][b[j] + 1] - xs[j][b[j]] for j in range(nd)]))
+            for p in itertools.product([0, 1], repeat=nd):
+                w = float(z[tuple(b[j] + p[j] for j in range(nd))]) * vol / 2**nd
+                exp[(b, p)] = w
+                tot += w
+        if any(-1 in k[1] for k in mass):
+            log.fail("inverse-exact", "InterpND|position-transform", "a position uniform of 0.04 must land 0.2 cell widths from a node (inverse of the triangular CDF)")
+            return
+        worst = max((abs(mass.get(k, 0.0) - v / tot), k) for k, v in exp.items())
+        if worst[0] > 4.0 / M * 1.5 + 1e-12:
+            log.fail("inverse-exact", "InterpND|cell-corner-measure", "%d-dimensional grid %s: the probability mass generate() gives to cell %s / corner %s is off by %.3g (expected z_corner*volume/2^n / integral)" % (nd, [len(x) for x in xs], worst[1][0], worst[1][1], worst[0]))
+            return
+        log.count("probe.interp_nd_measure_checked")
 
 
 def run_toy(spec, log):
@@ -685,6 +728,24 @@ def run_bins_once(spec, log, rep=0):
     parts = ab.split_data(used)
     if sum(p.shape[-1] for p in parts) != n:
         log.fail("exactly-one-bin", "AdaptiveBound|split-conserves", "split_data returns %d events in total for %d" % (sum(p.shape[-1] for p in parts), n))
+        return
+    # structured data split by named index columns: every event (with ALL its leaves) in exactly one piece
+    sd = {"v%d" % j: used[j] for j in range(used.shape[0])}
+    sd["tag"] = np.arange(n, dtype=np.float64)
+    try:
+        pieces = ab.split_full_data(sd, ["v%d" % j for j in range(used.shape[0])])
+    except Exception as e:
+        log.fail("exactly-one-bin", "AdaptiveBound|split_full_data|raised|%s" % type(e).__name__, "split_full_data raised %s: %s" % (type(e).__name__, str(e)[:160]))
+        return
+    tags = np.concatenate([np.array(p["tag"]) for p in pieces]) if pieces else np.zeros(0)
+    if len(pieces) != nb or sorted(tags.tolist()) != list(range(n)):
+        log.fail("exactly-one-bin", "AdaptiveBound|split_full_data", "split_full_data: %d pieces with %d events in total (%d distinct) for %d events in %d bins" % (len(pieces), tags.size, len(set(tags.tolist())), n, nb))
+        return
+    for p, m in zip(pieces, masks):
+        idx = np.array(p["tag"]).astype(int)
+        if not np.array_equal(idx, np.nonzero(m)[0]) or any(not np.array_equal(np.array(p["v%d" % j]), used[j][idx]) for j in range(used.shape[0])):
+            log.fail("exactly-one-bin", "AdaptiveBound|split_full_data|leaves", "a piece of split_full_data does not hold the events of its bin in all leaves")
+            return
 
 
 def run_hist(spec, log):
